@@ -1,4 +1,5 @@
 import MoqModel.GenLemmas
+import MoqModel.ResolveShallow
 import MoqModel.Preds
 import MoqModel.SortLemmas
 /-
@@ -78,6 +79,77 @@ theorem c11_noconflict_unique_partial (fuel : Nat) (r r' : Registry) (p : PkgRef
       simp at hb; subst hb
       intro e; subst e
       exact searchIn_none_notin _ _ hfree ha
+
+/-- **the ordinary conflict** (`x/foo` meets `y/foo`): the new import's qualifier is taken by `c`;
+    at the first level `k` where their unique names differ both names are free (taken, if at
+    all, only by `c` itself).  Then the new import is registered under its level-`k` name, `c` is
+    renamed to its own, nobody else is touched, and all qualifiers stay pairwise distinct.
+    Together with `c11_noconflict_unique_partial` this covers every run whose conflicts never
+    cascade; cascading conflicts (`_partial`) are decided per input by the reflected checker and
+    the go/types oracle. -/
+theorem c11_shallow_unique_partial (k fuel : Nat) (r r' : Registry) (p : PkgRef) (res : Option Str) (c : Pkg)
+    (ok : RegOK r) (hu : UniqueQ r)
+    (hc : searchIn r.imports (Pkg.qualifier ⟨stripVendorPath p.path, p.name,
+            aliasOf r.aliases (stripVendorPath p.path)⟩) = some c)
+    (heq : ∀ l, l < k → uniqueName (stripVendorPath p.path) l = uniqueName c.path l)
+    (hd : uniqueName (stripVendorPath p.path) k ≠ uniqueName c.path k)
+    (hna : uniqueName (stripVendorPath p.path) k ≠ []) (hnb : uniqueName c.path k ≠ [])
+    (hfa : ∀ x ∈ r.imports, x.qualifier = uniqueName (stripVendorPath p.path) k → x.path = c.path)
+    (hfb : ∀ x ∈ r.imports, x.qualifier = uniqueName c.path k → x.path = c.path)
+    (h : addImport Ord.id (fuel + 1 + k) r p = some (r', res)) :
+    UniqueQ r' ∧
+    (r'.imports = r.imports ∨
+     r'.imports = setAliasIn c.path (uniqueName c.path k) r.imports ++
+       [⟨stripVendorPath p.path, p.name, uniqueName (stripVendorPath p.path) k⟩]) := by
+  unfold addImport at h
+  simp only [] at h
+  split at h
+  · cases h; exact ⟨hu, Or.inl rfl⟩
+  · split at h
+    · cases h; exact ⟨hu, Or.inl rfl⟩
+    · rename_i hlk
+      have hcs : searchIn (Ord.id.pk r.imports) (Pkg.qualifier ⟨stripVendorPath p.path, p.name,
+            aliasOf r.aliases (stripVendorPath p.path)⟩) = some c := hc
+      simp only [hcs] at h
+      have hcm := searchIn_some_mem _ _ _ hc
+      have hne : stripVendorPath p.path ≠ c.path := by
+        intro e
+        exact lookup_none_notin r _ hlk (List.mem_map.mpr ⟨c, hcm.1, e.symm⟩)
+      have hclimb := resolve_climb Ord.id
+        ⟨⟨stripVendorPath p.path, p.name, aliasOf r.aliases (stripVendorPath p.path)⟩, r.imports⟩
+        (stripVendorPath p.path) c.path k (fuel + 1) 0 (by simpa using heq)
+      rw [hclimb] at h
+      have hsh := resolve_shallow fuel
+        ⟨stripVendorPath p.path, p.name, aliasOf r.aliases (stripVendorPath p.path)⟩ r.imports c.path (0 + k)
+        hne (by simpa using hd) (by simpa using hfa) (by simpa using hfb)
+      simp only [] at hsh
+      rw [hsh] at h
+      simp only [Option.map_some, Option.some.injEq, Prod.mk.injEq] at h
+      obtain ⟨hr, _⟩ := h
+      subst hr
+      have hnd := setAliasIn_nodup c.path (uniqueName c.path k) hnb r.imports ok.nodup hu hfb
+      refine ⟨?_, Or.inr (by simp)⟩
+      unfold UniqueQ
+      simp only [Nat.zero_add, List.map_append, List.map_cons, List.map_nil]
+      refine List.nodup_append.mpr ⟨hnd.1, by simp, ?_⟩
+      intro q hq q' hq'
+      simp only [List.mem_singleton] at hq'
+      subst hq'
+      obtain ⟨y, hy, hye⟩ := List.mem_map.mp hq
+      have hqa : Pkg.qualifier ⟨stripVendorPath p.path, p.name, uniqueName (stripVendorPath p.path) k⟩
+          = uniqueName (stripVendorPath p.path) k := by simp [Pkg.qualifier, hna]
+      rw [hqa]
+      intro e
+      rcases hnd.2 y hy with ⟨_, hyq⟩ | ⟨hyb, hyl⟩
+      · exact hd (by rw [← e, ← hye, hyq])
+      · exact hyb (hfa y hyl (by rw [hye, e]))
+
+/-- non-vacuity: `lib/foo` registered, `x/foo` arrives – level 0 ties (`foo`), level 1 gives
+    `xfoo` / `libfoo`, both free -/
+example :
+    (addImport Ord.id 3 (Registry.mk s%"s" s%"m/s" s%"m/s" [] [⟨s%"m/lib/foo", s%"foo", []⟩])
+        ⟨s%"m/x/foo", s%"foo"⟩).map (fun x => x.1.imports) =
+      some [⟨s%"m/lib/foo", s%"foo", s%"libfoo"⟩, ⟨s%"m/x/foo", s%"foo", s%"xfoo"⟩] := by decide
 
 /-- an alias the source file already uses for a package is kept when it conflicts with nothing -/
 theorem c11_alias_kept (fuel : Nat) (r r' : Registry) (p : PkgRef) (res : Option Str) (al : Str)
